@@ -11,11 +11,8 @@ prep)
     python3 - $id $N <<'PY'
 import json,sys,glob
 id,N=sys.argv[1],sys.argv[2]
-for l in open('/verif/properties.jsonl'):
-    d=json.loads(l)
-    if d['id']==id:
-        anchors=", ".join(a if isinstance(a,str) else a.get("path", str(a)) for a in (d.get("anchors") or []))
-        open(f'/tmp/seed{N}-{id}/PROPERTY.md','w').write(f"# Property {id}: {d.get('title','')}\n\n{d.get('statement')}\n\nQuantified over: {d.get('quantifier','')}\n\nAnchored in files: {anchors}\n")
+import shutil
+shutil.copy(f'/verif/tools/property_md/{id}.md', f'/tmp/seed{N}-{id}/PROPERTY.md')
 out=["# Changes that were already tried for this property (do NOT repeat these or close variants; find different code sites and different mechanisms)\n"]
 for d in sorted(glob.glob(f"/verif/seeded/{id}-*/"))+sorted(glob.glob(f"/verif/seeded/out-of-scope/{id}-*/")):
     try: m=json.load(open(d+"meta.json"))
